@@ -45,28 +45,28 @@ var properties = []Property{
 		NotDecided:  "values Go arithmetic produces; cells computed by calls other than power/substring (regexp match); dispatch on operand types beyond C05's clause; nesting; integer % by zero (a recovered panic, which the property allows as an error).",
 		Assumptions: commonAssumptions},
 	{ID: "C02", Title: "control flow", Level: "other",
-		Rules:       []string{"R-PATCHALL", "R-JUMPSET", "R-HANDLERS", "R-LOOPHEAD", "R-ITERNEXT", "R-MEMBERSHIP", "R-SWITCHDEFAULT", "R-NOMUT", "R-JOINPH", "R-EMITSET", "R-LOOPSTACK", "R-SWITCHONCE", "R-SCOPEFRESH", "R-SCOPERESTORE", "R-CONSTJUMP"},
+		Rules:       []string{"R-PATCHALL", "R-JUMPSET", "R-HANDLERS", "R-LOOPHEAD", "R-ITERNEXT", "R-MEMBERSHIP", "R-SWITCHDEFAULT", "R-NOMUT", "R-JOINPH", "R-EMITSET", "R-LOOPSTACK", "R-SWITCHONCE", "R-SCOPEFRESH", "R-SCOPERESTORE", "R-CONSTJUMP", "R-CHILDCOMPILED", "R-RANGE"},
 		Explanation: "SSA path analysis of the compiler: every placeholder jump is back-patched on every successful path, loops jump back to a head recorded before the re-executed code, the jump opcode set is the same in VM/optimizer/compiler, every opcode has a handler and the return opcode leaves the interpreter. The foreach handler advances its cursor once per cycle, membership loops have no early exit on a non-match, and a switch's default arm is compiled after every case. Each construct is translated with the opcodes of its scheme only (closed table), forward labels are outside every folding window. Known findings: a foreach body can bury the iterator it keeps on the stack; the switch subject is translated once per arm. A run ends with no loop scope left open (the variables it leaves are the globals), and the optimizer takes a conditional jump away only together with the constant that decides it.",
 		NotDecided:  "that patched offsets are the right ones (values computed while Prepare runs), order of arms, element order of foreach.",
 		Assumptions: commonAssumptions},
 	{ID: "C03", Title: "optimizer transparency", Level: "other",
-		Rules:       []string{"R-JOINPH", "R-FOLDAGREE", "R-JUMPSET", "R-EMITLEN", "R-NOINJECT", "R-FLAGONLY", "R-FOLDRESET", "R-OPTCLOSED", "R-FOLDARITY", "R-TABLEKEEP", "R-CONSTJUMP"},
-		Explanation: "Structural soundness conditions of the peephole optimizer: every forward label is outside every folding window (placeholder or preceded by an unconditional jump) and the folder resets its window on unnamed opcodes; jump sets agree between VM, NOP removal, dead-code pass and compiler; operand presence agrees; the optimizer switch is not script-visible. The optimizer performs exactly the enumerated rewrites (a new one is reported as not decided). Every write of the folder needs as many pending constants as the operator has operands. A conditional jump is removed or made unconditional only where the instruction before it is known to push true or false.",
+		Rules:       []string{"R-JOINPH", "R-FOLDAGREE", "R-JUMPSET", "R-EMITLEN", "R-NOINJECT", "R-FLAGONLY", "R-FOLDRESET", "R-OPTCLOSED", "R-FOLDARITY", "R-TABLEKEEP", "R-CONSTJUMP", "R-OPTABLE"},
+		Explanation: "Structural soundness conditions of the peephole optimizer: every forward label is outside every folding window (placeholder or preceded by an unconditional jump) and the folder resets its window on unnamed opcodes; jump sets agree between VM, NOP removal, dead-code pass and compiler; operand presence agrees; the optimizer switch is not script-visible. The optimizer performs exactly the enumerated rewrites (a new one is reported as not decided). Every write of the folder needs as many pending constants as the operator has operands. A conditional jump is removed or made unconditional only where the instruction before it is known to push true or false. The folder's agreement with the VM presupposes that the VM's integer cells are the plain Go operators (R-OPTABLE).",
 		NotDecided:  "observational equivalence of optimized and unoptimized programs in general.",
 		Assumptions: commonAssumptions},
 	{ID: "C13", Title: "invalid scripts are rejected", Level: "other",
-		Rules:       []string{"R-NILERR", "R-ERRPROP", "R-BLOCKOPEN", "R-TOPSTOP", "R-TERNGUARD", "R-LOCALGUARD", "R-EOFSENTINEL", "R-NAMETOKEN", "R-FUNCFLAG", "R-SEENTOKEN", "R-VISITALL", "R-ONEDEFAULT", "R-TEXTOFNODE", "R-CHILDCOMPILED", "R-TOKENSTATE"},
+		Rules:       []string{"R-NILERR", "R-ERRPROP", "R-BLOCKOPEN", "R-TOPSTOP", "R-TERNGUARD", "R-LOCALGUARD", "R-EOFSENTINEL", "R-NAMETOKEN", "R-FUNCFLAG", "R-SEENTOKEN", "R-VISITALL", "R-ONEDEFAULT", "R-TEXTOFNODE", "R-CHILDCOMPILED", "R-TOKENSTATE", "R-USEBEFORECHECK"},
 		Explanation: "SSA dataflow over the parser and compiler: a parse function returns nil only after an error was recorded (must-dataflow with callee summaries, through the registered parselet tables), Parse turns a non-empty error list into an error, every error-valued call has its error looked at and never replaced by nil, blocks are parsed only after '{' was demanded, the top-level loop stops only at end of input, nested ternaries and `local` outside functions are rejected. Names are only taken from tokens tested to be identifiers, the in-function flag is cleared on every exit, and the parser never steps over a token it has not looked at (identified beforehand as one kind on every path, or examined afterwards). Compiler loops over a node's children are left early only with an error, a switch cannot end up with two default arms, the printed form of a node stands for it only where the node is an identifier, and a ternary's condition is examined for a ternary. A typestate analysis of the current and next token (may it be the end of input, may it be illegal, has an error been recorded) over all parser methods, with summaries through calls and the parselet tables, shows that no advance steps off a token that may be either without an error on record.",
 		NotDecided:  "that each individual syntax check is the right check (needs a grammar as oracle).",
 		Assumptions: commonAssumptions},
 	{ID: "C04", Title: "host object fields", Level: "other",
-		Rules:       []string{"R-NONNIL", "R-RUNRESET", "R-LOOKUPORDER", "R-KINDTABLE", "R-COMMAOK", "R-PUREARGS", "R-REFLECTKIND", "R-ONPATHONLY"},
-		Explanation: "Conversion of host fields is total and never yields a nil object (SSA nil-source analysis with function summaries over every Object-returning function and every push/store sink), every run and nested call starts from an empty field cache, and names resolve as variable, then field, then null (dominance in the resolver). The reflect.Kind → object table is the documented one, comma-ok results are used only where ok was tested, and no built-in reorders or writes an array it was given (a field's array is shared with the field cache). Members of host containers are taken out of their interface before the kind switch sees them, and the set that cuts off self-containing containers holds the current path only (a sibling met twice is not a cycle).",
+		Rules:       []string{"R-NONNIL", "R-RUNRESET", "R-LOOKUPORDER", "R-KINDTABLE", "R-COMMAOK", "R-PUREARGS", "R-REFLECTKIND", "R-ONPATHONLY", "R-STATECENSUS"},
+		Explanation: "Conversion of host fields is total and never yields a nil object (SSA nil-source analysis with function summaries over every Object-returning function and every push/store sink), every run and nested call starts from an empty field cache, and names resolve as variable, then field, then null (dominance in the resolver). The reflect.Kind → object table is the documented one, comma-ok results are used only where ok was tested, and no built-in reorders or writes an array it was given (a field's array is shared with the field cache). Members of host containers are taken out of their interface before the kind switch sees them, and the set that cuts off self-containing containers holds the current path only (a sibling met twice is not a cycle). No state of the machine outlives a run unclassified, so a run sees the object it was given.",
 		NotDecided:  "lossless conversion per kind, order and length of arrays, nested maps: values produced by reflection at run time.",
 		Assumptions: commonAssumptions},
 	{ID: "C05", Title: "one notion of truth", Level: "other",
-		Rules:       []string{"R-IDENTITY", "R-LOGICDISPATCH", "R-TRUTHDEF", "R-TRUTHSITES", "R-RUNEXEC", "R-LOGICCELLS", "R-UNARY", "R-OPTCLOSED", "R-CONDDIRECT", "R-EMITSET"},
-		Explanation: "No identity comparison of objects anywhere in the library (SSA; matcher self-tested on a built-in example), && and || are reachable for every operand type pair (clause order of the dispatcher against the extracted tables), every True() body is the language's definition, consumers of truth call True(), and Run is True() of Execute's object with Execute's error. The compiler translates conditions and arms of if / while / ternary / switch exactly as the node's own fields and never writes into the tree; `!` is decided by the operand's type; the optimizer's rewrites are the enumerated ones.",
+		Rules:       []string{"R-IDENTITY", "R-LOGICDISPATCH", "R-TRUTHDEF", "R-TRUTHSITES", "R-RUNEXEC", "R-LOGICCELLS", "R-UNARY", "R-OPTCLOSED", "R-CONDDIRECT", "R-EMITSET", "R-CHILDCOMPILED"},
+		Explanation: "No identity comparison of objects anywhere in the library (SSA; matcher self-tested on a built-in example), && and || are reachable for every operand type pair (clause order of the dispatcher against the extracted tables), every True() body is the language's definition, consumers of truth call True(), and Run is True() of Execute's object with Execute's error. The compiler translates conditions and arms of if / while / ternary / switch exactly as the node's own fields and never writes into the tree; `!` is decided by the operand's type; the optimizer's rewrites are the enumerated ones. Both arms of a ternary are translated on every path.",
 		NotDecided:  "the values of comparisons themselves.",
 		Assumptions: commonAssumptions},
 	{ID: "C08", Title: "no crash of the host", Level: "other",
@@ -75,13 +75,13 @@ var properties = []Property{
 		NotDecided:  "memory exhaustion; panics inside the recover region (they become errors, which the property allows); nil-pointer dereferences and nil-map writes outside the recover other than those R-NONNIL / R-MACHINENIL / R-COMMAOK cover; panics raised inside the standard library on arguments it rejects; host-supplied Object implementations.",
 		Assumptions: commonAssumptions},
 	{ID: "C09", Title: "deadline and cancellation", Level: "other",
-		Rules:       []string{"R-POLL", "R-CTXFLOW"},
-		Explanation: "The non-blocking poll of the VM's context dominates the opcode read and lies on every back edge of the dispatch loop (dominator analysis), its ready edge returns an error, inner loops of the interpreter are classified by their bound, functions execute through the same polled loop, and the context flows SetContext → Prepare → VM with no other writer. Every loop in every function the interpreter reaches is bounded by data that already exists (len, a reflect size, an operand); a trip count taken from a script value is reported.",
+		Rules:       []string{"R-POLL", "R-CTXFLOW", "R-RANGE"},
+		Explanation: "The non-blocking poll of the VM's context dominates the opcode read and lies on every back edge of the dispatch loop (dominator analysis), its ready edge returns an error, inner loops of the interpreter are classified by their bound, functions execute through the same polled loop, and the context flows SetContext → Prepare → VM with no other writer. Every loop in every function the interpreter reaches is bounded by data that already exists (len, a reflect size, an operand); a trip count taken from a script value is reported. The range constructor — excluded from R-POLL's loop bounds — is bounded by its length computation (R-RANGE).",
 		NotDecided:  "the length of the delay: a single instruction (regexp match, sort, a huge range) may run long; Go scheduling.",
 		Assumptions: commonAssumptions},
 	{ID: "C06", Title: "functions and scopes", Level: "other",
-		Rules:       []string{"R-SCOPEPAIR", "R-SCOPERESTORE", "R-BINDINNER", "R-FRAMERESTORE", "R-LOCALGUARD", "R-CALLPROTO", "R-SCOPESEARCH", "R-SCOPEFRESH", "R-TABLEKEEP", "R-BODYRETURN", "R-FUNCFLAG", "R-NAMEAGREE"},
-		Explanation: "SSA dominance and call-graph checks on the call protocol: the callee's scope is opened before parameters are bound, binding goes to the innermost scope, scopes and the swapped VM fields are restored by deferred code (by absolute depth / to the pre-swap values) on every exit, loops open and close their scope, `local` only inside functions. A built-in wins over a user function and the arity check applies to the function actually called; scope walks go innermost first; every scope pushed is a freshly made map and the stack is only ever truncated. Every handler that uses a name from the program as a variable's name makes that name the same way (the legacy $ prefix).",
+		Rules:       []string{"R-SCOPEPAIR", "R-SCOPERESTORE", "R-BINDINNER", "R-FRAMERESTORE", "R-LOCALGUARD", "R-CALLPROTO", "R-SCOPESEARCH", "R-SCOPEFRESH", "R-TABLEKEEP", "R-BODYRETURN", "R-FUNCFLAG", "R-NAMEAGREE", "R-VISITALL"},
+		Explanation: "SSA dominance and call-graph checks on the call protocol: the callee's scope is opened before parameters are bound, binding goes to the innermost scope, scopes and the swapped VM fields are restored by deferred code (by absolute depth / to the pre-swap values) on every exit, loops open and close their scope, `local` only inside functions. A built-in wins over a user function and the arity check applies to the function actually called; scope walks go innermost first; every scope pushed is a freshly made map and the stack is only ever truncated. Every handler that uses a name from the program as a variable's name makes that name the same way (the legacy $ prefix). Every statement of a block is visited by the compiler, so a function defined anywhere is registered.",
 		NotDecided:  "innermost-first lookup order and the redirect of assignments to an existing local (loop direction over run-time data); results of recursion; built-in-before-user lookup order.",
 		Assumptions: commonAssumptions},
 	{ID: "C07", Title: "no hidden state between runs", Level: "other",
@@ -116,8 +116,8 @@ var properties = []Property{
 		NotDecided:  "the '.' rewrite of field access, postfix ++/-- being separate statements, what the compiler does with the tree.",
 		Assumptions: commonAssumptions},
 	{ID: "C14", Title: "literals and layout", Level: "other",
-		Rules:       []string{"R-LEXPROGRESS", "R-EOFSENTINEL", "R-ESCAPES", "R-CONSTDEDUP", "R-DIVCONTEXT", "R-COMMENTCTX", "R-NUMBASE", "R-TOKENPROGRESS", "R-LEXINPUT", "R-CUTSET"},
-		Explanation: "Narrow claim. Tokenisation terminates for every input: the advance function moves forward unconditionally, every lexer loop advances on every cycle and has an exit taken at the end-of-input sentinel (loop conditions are evaluated with the sentinel substituted, predicates included), and the lexer does not recurse. End of input is decided by position, not by a character value. The string reader's escape table is the language's. Every return of NextToken has consumed a character (readers are entered under their own loop predicate); `//` starts a comment independent of the previous token; `/` divides exactly after an operand-ending token; integer and decimal text is read in base 10 with 64 bits; the constant pool keeps literals of different kinds apart. The lexer's buffer is the script text unmodified; Trim calls have constant cutsets.",
+		Rules:       []string{"R-LEXPROGRESS", "R-EOFSENTINEL", "R-ESCAPES", "R-CONSTDEDUP", "R-DIVCONTEXT", "R-COMMENTCTX", "R-NUMBASE", "R-TOKENPROGRESS", "R-LEXINPUT", "R-CUTSET", "R-BYTERUNE"},
+		Explanation: "Narrow claim. Tokenisation terminates for every input: the advance function moves forward unconditionally, every lexer loop advances on every cycle and has an exit taken at the end-of-input sentinel (loop conditions are evaluated with the sentinel substituted, predicates included), and the lexer does not recurse. End of input is decided by position, not by a character value. The string reader's escape table is the language's. Every return of NextToken has consumed a character (readers are entered under their own loop predicate); `//` starts a comment independent of the previous token; `/` divides exactly after an operand-ending token; integer and decimal text is read in base 10 with 64 bits; the constant pool keeps literals of different kinds apart. The lexer's buffer is the script text unmodified; Trim calls have constant cutsets. No text of a script is rebuilt byte by byte in the lexer, parser or compiler.",
 		NotDecided:  "what regexp literals denote character by character, and that layout and comments never change the token sequence in general: character-level value semantics.",
 		Assumptions: commonAssumptions},
 	{ID: "C16", Title: "containers", Level: "other",
@@ -126,18 +126,18 @@ var properties = []Property{
 		NotDecided:  "element order from the stack, len, membership: values.",
 		Assumptions: commonAssumptions},
 	{ID: "C19", Title: "determinism", Level: "other",
-		Rules:       []string{"R-MAPORDER", "R-NONDETSRC", "R-PREPAREFRESH", "R-NOMUT", "R-POOLOWNER", "R-FRAMERESTORE"},
+		Rules:       []string{"R-MAPORDER", "R-NONDETSRC", "R-PREPAREFRESH", "R-NOMUT", "R-POOLOWNER", "R-FRAMERESTORE", "R-SCOPERESTORE"},
 		Explanation: "Every iteration over a Go map in the library is classified as order-insensitive, collected-then-totally-sorted, or listed with a reason; there is no goroutine, multi-way select, pointer printing or randomness in the library; Prepare starts from empty compile outputs. No stack trace, goroutine or process identity reaches a result; a listed order-insensitive map loop must run to exhaustion.",
 		NotDecided:  "nothing structural remains; what remains is values (and now()/time()/getenv(), which the property excludes).",
 		Assumptions: commonAssumptions},
 	{ID: "C17", Title: "built-in contracts", Level: "other",
-		Rules:       []string{"R-ARGGUARD", "R-PUREARGS", "R-NUMORDER", "R-LENKIND", "R-TIMEFIELDS", "R-USEBEFORECHECK", "R-JOINSHAPE", "R-NUMBASE", "R-MATCHONCE", "R-CUTSET", "R-COMMAOK"},
-		Explanation: "Narrow claim. Totality on wrong arity/type: every args[k] and every unchecked assertion of an argument is guarded by a dominating length / Type() test (abstract interpretation over length sets and type facts, with helper functions checked at their call sites). Inputs unchanged: no built-in stores into, sorts in place or mutates anything reachable from its arguments. min/max/between: no ordering by printed form is reachable when both arguments are numbers, the numeric helper computes left < right, min returns the smaller and max the larger argument, between is false exactly when v < lo or hi < v. join only concatenates element text and separator, places separators by position and does not post-process its result; int/float read base 10 / 64 bits; the time built-ins call the time method of the same name; len counts runes/elements. The time is decomposed in $TZ or UTC on every path; the matcher tries its pattern at least once; Trim calls have constant cutsets.",
+		Rules:       []string{"R-ARGGUARD", "R-PUREARGS", "R-NUMORDER", "R-LENKIND", "R-TIMEFIELDS", "R-USEBEFORECHECK", "R-JOINSHAPE", "R-NUMBASE", "R-MATCHONCE", "R-CUTSET", "R-COMMAOK", "R-TYPENAME", "R-FLOATINT"},
+		Explanation: "Narrow claim. Totality on wrong arity/type: every args[k] and every unchecked assertion of an argument is guarded by a dominating length / Type() test (abstract interpretation over length sets and type facts, with helper functions checked at their call sites). Inputs unchanged: no built-in stores into, sorts in place or mutates anything reachable from its arguments. min/max/between: no ordering by printed form is reachable when both arguments are numbers, the numeric helper computes left < right, min returns the smaller and max the larger argument, between is false exactly when v < lo or hi < v. join only concatenates element text and separator, places separators by position and does not post-process its result; int/float read base 10 / 64 bits; the time built-ins call the time method of the same name; len counts runes/elements. The time is decomposed in $TZ or UTC on every path; the matcher tries its pattern at least once; Trim calls have constant cutsets. type() names every type; no built-in converts a float to an integer without a range check.",
 		NotDecided:  "every value-level contract: split and the join/split round trip as a whole, sort's permutation property, conversions, string helpers.",
 		Assumptions: commonAssumptions},
 	{ID: "C20", Title: "front ends", Level: "other",
-		Rules:       []string{"R-RUNEXEC", "R-ENVSHARE", "R-VOIDPUSH", "R-FLAGONLY", "R-NOINJECT", "R-CTXFLOW", "R-DRIVER", "R-POPORDER", "R-SCOPERESTORE", "R-LOCKSET", "R-FMTCONST", "R-SWITCHONCE", "R-CALLPROTO", "R-NAMEAGREE"},
-		Explanation: "Narrow claim. Run is True() of Execute's object with Execute's error; the API methods pass their own arguments to the one environment the machine was built on; call results are pushed exactly when not void; the NoOptimize flag guards only the optimizer switch; the library injects no variables; the context flows SetContext → Prepare → VM; the command-line driver sets the context before Prepare, plumbs -no-optimizer and the decoded JSON document, reports type/value/truth of Execute's result and recovers panics. Only Prepare and Run take the evaluator's mutex (a host function may call the other methods during Run); printf-style calls have constant formats, so a result's text is never re-interpreted; call arguments are popped in reverse push order. Known finding: the subject of a switch is translated once per arm, so a host function used as subject is called several times. A host function wins over a script function of the same name.",
+		Rules:       []string{"R-RUNEXEC", "R-ENVSHARE", "R-VOIDPUSH", "R-FLAGONLY", "R-NOINJECT", "R-CTXFLOW", "R-DRIVER", "R-POPORDER", "R-SCOPERESTORE", "R-LOCKSET", "R-FMTCONST", "R-SWITCHONCE", "R-CALLPROTO", "R-NAMEAGREE", "R-RECURSION", "R-LOOKUPORDER"},
+		Explanation: "Narrow claim. Run is True() of Execute's object with Execute's error; the API methods pass their own arguments to the one environment the machine was built on; call results are pushed exactly when not void; the NoOptimize flag guards only the optimizer switch; the library injects no variables; the context flows SetContext → Prepare → VM; the command-line driver sets the context before Prepare, plumbs -no-optimizer and the decoded JSON document, reports type/value/truth of Execute's result and recovers panics. Only Prepare and Run take the evaluator's mutex (a host function may call the other methods during Run); printf-style calls have constant formats, so a result's text is never re-interpreted; call arguments are popped in reverse push order. Known finding: the subject of a switch is translated once per arm, so a host function used as subject is called several times. A host function wins over a script function of the same name. What the driver does with a result (its JSON form) is bounded recursion too.",
 		NotDecided:  "argument order of host calls (index arithmetic over run-time counts), what the driver prints character by character, the lex/parse sub-commands' output.",
 		Assumptions: commonAssumptions},
 	{ID: "C18", Title: "well-formed code", Level: "other",
